@@ -443,6 +443,22 @@ def one_case(rep, drv, contents, focus, ci, seed, case_dir, src_root, dst_root, 
                     if focus == "C05": rep.oracle_fail("C05/user-file-named-like-temp", f"destination entry {r} bears the working-file name of {base}, which was updated: removed", desc)
             if diff: dis.append(("dst", dict(list(sorted(diff.items()))[:6]), None))
         elif mi != ri: dis.append(("inode-classes", ri, mi))
+    # the recorded residual collision of the deterministic working-file name (C05/user-file-named-like-temp, C06/extra-named-like-working-file-
+    # clobbered; Lean: Refine.refines_counterexample_temp_in_use): an entry named <x>.sy.tmp beside a regular file x that exists on both sides
+    # (an update candidate of the block-delta route).  The entry-level model does not know working files; what the run does to <x>.sy.tmp
+    # and to x in such a case (removed, clobbered, a failed operation when both are transferred at once) is that finding, reported by the
+    # C05 / C06 checks under its signatures — here it is not a NEW disagreement of the model.  Everything else in the case is still compared.
+    collide = {r for r in set(pre_src) | set(pre_dst) if r.endswith(".sy.tmp") and (pre_src.get(r[:-7]) or {}).get("k") == "f" and (pre_dst.get(r[:-7]) or {}).get("k") == "f"}
+    collide |= {r[:-7] for r in collide}
+    if collide and dis:
+        kept = []
+        for d in dis:
+            if d[0] == "dst" and isinstance(d[1], dict) and set(d[1]) <= collide: continue
+            if d[0] in ("exit", "errors", "events", "files_created", "files_updated", "files_skipped", "bytes_transferred") and rc not in (None, 0) \
+               and real_errors and set(real_errors) <= collide: continue
+            kept.append(d)
+        if len(kept) != len(dis): rep.tag("known.working-file-name-in-use")
+        dis = kept
     # a check compares the fields its property speaks about (a disagreement elsewhere is another property's business
     # and is decided by that property's check on the same generators)
     rel = K_FIELDS.get(focus)
